@@ -340,13 +340,51 @@ def regauge(st, r, strength=0.5):
         lab = np.asarray(g.qn[i + 1]).reshape(d, -1)
         mask = (lab[:, None, :] == lab[None, :, :]).all(axis=2)
         x = np.eye(d) + strength * r.standard_normal((d, d)) * mask
+        if np.iscomplexobj(np.asarray(g[i].array)):
+            x = x + 1j * strength * r.standard_normal((d, d)) * mask       # complex gauge: the bond overlap matrices become complex Hermitian
         g[i] = np.tensordot(np.asarray(g[i].array), x, axes=(-1, 0))
         g[i + 1] = np.tensordot(np.linalg.inv(x), np.asarray(g[i + 1].array), axes=(-1, 0))
     return g
 
 
+def noncanonical_family(model, qn, r, base, tag, full):
+    """non-canonical representations with LEGAL flags built from `base` (left-canonical: to_right=False, centre last) and its
+    right-canonical form (to_right=True, centre 0): raw Mpo.apply results, raw sums, re-gauged bonds"""
+    out = []
+    mpo = Mpo(model)
+    b = base.copy()
+    b.ensure_right_canonical()
+    unit = lambda x: x.scale(1.0 / float(np.linalg.norm(dense_of(x))))     # evolve() renormalises the tensors: unit norm, no gauge change
+    out.append((tag + "operator-applied", unit(mpo @ base)))
+    out.append((tag + "regauged-left-flags", regauge(base, r)))
+    out.append((tag + "regauged-right-flags", regauge(b, r)))
+    other = rand_state(model, r, qn, 16, complex_=bool(tag))
+    out.append((tag + "added-raw", unit(base.add(other.scale(0.7)))))
+    other.ensure_right_canonical()
+    out.append((tag + "added-raw-R", unit(b.add(other.scale(0.6)))))
+    dofs = [bs.dofs[0] if isinstance(bs.dofs, (list, tuple)) else bs.dof for bs in model.basis]
+    spin = all(isinstance(bs, ba.BasisHalfSpin) for bs in model.basis)
+    vsites = [i for i, bs in enumerate(model.basis) if isinstance(bs, ba.BasisSHO)]
+    cand = [0, len(model.basis) // 2, len(model.basis) - 1] if spin else [vsites[0], vsites[-1]]
+    for t2, operand in (("R", b), ("L", base)):
+        for k in cand:
+            if spin:
+                # mu^+ mu must not be a multiple of the identity (Z + 0.6 X alone squares to 1.36)
+                mu = Mpo(model, Op("Z", dofs[k], 1.0) + Op("X", dofs[k], 0.6) + Op("I", dofs[k], 0.8))
+                pre = Mpo(model, Op("Z", dofs[k], 2.5))
+            else:
+                mu = Mpo(model, Op(r"b^\dagger+b", dofs[k], 1.0) + Op(r"b^\dagger b", dofs[k], 0.7))
+                pre = Mpo(model, Op(r"b^\dagger b", dofs[k], 2.5) + Op(r"b^\dagger+b", dofs[k], 2.5))
+            for oname, o in ((("mu", mu), ("pref", pre)) if full else (("mu", mu),)):
+                x = o @ operand
+                if float(np.linalg.norm(dense_of(x))) > 1e-8:
+                    out.append(("%sapplied-%s-%s-site%d" % (tag, t2, oname, k), unit(x)))
+    return out
+
+
 def gauges(model, qn, r):
-    """(name, state) -- all representable exactly with the default limit"""
+    """(name, state) -- all representable exactly with the default limit.  The non-canonical family is built twice: from a real and
+    from a COMPLEX state (complex non-orthonormal tensors make the bond overlap matrices complex Hermitian)."""
     np.random.seed(int(r.randint(0, 2 ** 31 - 1)))
     base = rand_state(model, r, qn, 16)
     out = [("left-canonical", base)]
@@ -357,41 +395,13 @@ def gauges(model, qn, r):
     out.append(("random-raw", raw))
     mpo = Mpo(model)
     out.append(("expanded", base.copy().expand_bond_dimension(hint_mpo=mpo, coef=1e-10)))
-    ap = mpo @ base
-    ap.normalize("mps_and_coeff")
-    out.append(("operator-applied", ap))
-    out.append(("complex", rand_state(model, r, qn, 16, complex_=True)))
-    # non-canonical representations whose flags are legal: (to_right=False, centre last) and (to_right=True, centre 0)
-    out.append(("regauged-left-flags", regauge(base, r)))
-    out.append(("regauged-right-flags", regauge(b, r)))
-    other = rand_state(model, r, qn, 16)
-    sm = base.add(other.scale(0.7))                    # raw output of add: block-diagonal tensors, not canonical
-    sm = sm.scale(1.0 / float(np.linalg.norm(dense_of(sm))))      # evolve() renormalises the tensors: start from unit norm (no gauge change)
-    out.append(("added-raw", sm))
-    # raw `mu @ psi` (Mpo.apply copies the gauge flags without canonicalising) for a non-unitary one-site mu on the first /
-    # middle / last site and for a single-term operator with a prefactor (stored on the last site of the MPO), from a
-    # right-canonical (to_right=True, qnidx=0) and from a left-canonical operand; raw add of two right-canonical states
-    dofs = [bs.dofs[0] if isinstance(bs.dofs, (list, tuple)) else bs.dof for bs in model.basis]
-    spin = all(isinstance(bs, ba.BasisHalfSpin) for bs in model.basis)
-    vsites = [i for i, bs in enumerate(model.basis) if isinstance(bs, ba.BasisSHO)]
-    cand = [0, len(model.basis) // 2, len(model.basis) - 1] if spin else [vsites[0], vsites[-1]]
-    for tag, operand in (("R", b), ("L", base)):
-        for k in cand:
-            if spin:
-                mu = Mpo(model, Op("Z", dofs[k], 1.0) + Op("X", dofs[k], 0.6))
-                pre = Mpo(model, Op("Z", dofs[k], 2.5))
-            else:
-                mu = Mpo(model, Op(r"b^\dagger+b", dofs[k], 1.0) + Op(r"b^\dagger b", dofs[k], 0.7))
-                pre = Mpo(model, Op(r"b^\dagger b", dofs[k], 2.5) + Op(r"b^\dagger+b", dofs[k], 2.5))
-            for oname, o in (("mu", mu), ("pref", pre)):
-                x = o @ operand
-                nrm = float(np.linalg.norm(dense_of(x)))
-                if nrm > 1e-8:
-                    out.append(("applied-%s-%s-site%d" % (tag, oname, k), x.scale(1.0 / nrm)))
-    b2 = rand_state(model, r, qn, 16)
-    b2.ensure_right_canonical()
-    sr = b.add(b2.scale(0.6))
-    out.append(("added-raw-R", sr.scale(1.0 / float(np.linalg.norm(dense_of(sr))))))
+    cbase = rand_state(model, r, qn, 16, complex_=True)
+    out.append(("complex", cbase))
+    cb = cbase.copy()
+    cb.ensure_right_canonical()
+    out.append(("complex-right-canonical", cb))
+    out += noncanonical_family(model, qn, r, base, "", True)
+    out += noncanonical_family(model, qn, r, cbase, "complex-", False)
     plain, expanded = mpdm_states(model, base, mpo, qn)
     out.append(("mpdm", plain))
     if expanded is not None:
@@ -480,6 +490,85 @@ def check_negative_adaptive(mname, model, h, st, sname):
         records.append(rec)
         if not e <= bound:
             fail("negative/" + label.split("/")[0], rec)
+
+
+def check_homogeneity(mname, model, h, st, sname, table):
+    """evolve(c psi) = c evolve(psi): the factor c carried by the prefactor (normalize=True) and by the tensors (scale(); normalize=False so
+    that it is not normalised away), c in {1e-3, 1e3, a phase}; compared with c x (dense exact result) within the scheme's own bound"""
+    mpo = Mpo(model)
+    psi = dense_of(st)
+    hn = float(np.linalg.norm(h, 2))
+    dt = 0.04
+    ref = ref_vec(h, psi, dt)
+    for label, method, cfg, kind in table:
+        if time.time() - T0 > 1.5 * BUDGET:
+            return
+        bound = call_bound(kind, hn, dt)
+        try:
+            base_out = dense_of(run(st, mpo, method, cfg, dt, normalize=False))
+        except Exception as ex:
+            rec = {"check": "homogeneity", "scheme": label, "model": mname, "exc": repr(ex)[:300]}
+            records.append(rec)
+            fail("exception/homogeneity/" + label.split("/")[0], rec)
+            continue
+        for c in (1e-3, 1e3, np.exp(0.7j)):
+            for where in ("coeff", "tensors"):
+                try:
+                    a = st.copy()
+                    if where == "coeff":
+                        a.coeff = a.coeff * c
+                        out = dense_of(run(a, mpo, method, cfg, dt, normalize=True))
+                        target = c * ref
+                    else:
+                        a = a.scale(c)
+                        out = dense_of(run(a, mpo, method, cfg, dt, normalize=False))
+                        target = c * ref
+                    e = float(np.linalg.norm(out - target) / abs(c))
+                    lin = float(np.linalg.norm(out - c * base_out) / abs(c)) if where == "tensors" else None
+                except Exception as ex:
+                    rec = {"check": "homogeneity", "scheme": label, "model": mname, "c": str(c), "where": where, "exc": repr(ex)[:300]}
+                    records.append(rec)
+                    fail("exception/homogeneity/" + label.split("/")[0], rec)
+                    continue
+                rec = {"check": "homogeneity", "scheme": label, "model": mname, "state": sname, "c": str(c), "where": where, "err_over_c": e,
+                       "bound": bound, "dist_to_c_times_unit_run_over_c": lin}
+                records.append(rec)
+                if not e <= bound:
+                    fail("homogeneity/" + label.split("/")[0], rec)
+
+
+def check_homogeneity_adaptive(mname, model, h, st, sname):
+    """the adaptive controllers measure a RELATIVE error: the accepted error must stay in the tolerance band whatever the norm of the state"""
+    mpo = Mpo(model)
+    psi = dense_of(st)
+    T = 0.4
+    ref = ref_vec(h, psi, T)
+    for label, method, cfg, rtols, accf in ADAPTIVE:
+        if time.time() - T0 > 1.5 * BUDGET:
+            return
+        rtol = rtols[-1]
+        e1 = None
+        for c in (1.0, 1e-3, 1e3):
+            _cap.acc = _cap.rej = 0
+            try:
+                a = st.copy().scale(c)
+                set_cfg(a, method, m_max=64, adaptive=True, guess_dt=0.05, adaptive_rtol=rtol, **cfg)
+                out = a.evolve(mpo, T, normalize=False)
+                e = float(np.linalg.norm(dense_of(out) - c * ref) / abs(c))
+            except Exception as ex:
+                rec = {"check": "homogeneity-adaptive", "scheme": label, "model": mname, "c": c, "exc": repr(ex)[:300]}
+                records.append(rec)
+                fail("exception/homogeneity/" + label.split("/")[0], rec)
+                continue
+            bound = 10 * accf * rtol * max(1, _cap.acc) + 1e-9
+            if c == 1.0:
+                e1 = e
+            rec = {"check": "homogeneity-adaptive", "scheme": label, "model": mname, "state": sname, "c": c, "rtol": rtol, "err_over_c": e, "bound": bound,
+                   "accepted_msgs": _cap.acc, "err_unit_norm": e1}
+            records.append(rec)
+            # same tolerance band as the unit-norm run: the decisions of the controller must not depend on the norm
+            if not e <= bound or (e1 is not None and e > 20 * e1 + 1e-9):
+                fail("homogeneity/" + label.split("/")[0], rec)
 
 
 CFG_FIELDS = ("method", "adaptive", "adaptive_rtol", "tdvp_cmf_midpoint", "tdvp_cmf_c_trapz", "reg_epsilon", "ivp_rtol", "ivp_atol",
@@ -595,6 +684,8 @@ for mi_, kind in enumerate(("spin", "holstein")):
     for li in range(0, len(table), 10):
         jobs.append(("reuse", kind, li))
         jobs.append(("negative", kind, li))
+        jobs.append(("homogeneity", kind, li))
+    jobs.append(("homogeneity-adaptive", kind, 0))
     jobs.append(("negative-adaptive", kind, 0))
 jobs.append(("ps1", "spin", 0))
 jobs.append(("callable", "spin", 0))
@@ -631,6 +722,10 @@ for what, kind, li in mine:
         check_dims(mname, model, h, qn, r2, table[li:li + 6])
     elif what == "gauge":
         check_gauge(mname, model, h, qn, r2, table[li:li + 6])
+    elif what == "homogeneity":
+        check_homogeneity(mname, model, h, st_c, "complex", table[li:li + 10])
+    elif what == "homogeneity-adaptive":
+        check_homogeneity_adaptive(mname, model, h, st_r, "real")
     elif what == "negative":
         check_negative(mname, model, h, st_c, "complex", table[li:li + 10])
     elif what == "negative-adaptive":
